@@ -479,13 +479,16 @@ class DataSet:
             self._mask.update({i: False for i in range(0, self._num_points)})
             return
 
-        mask = mask.copy()
-
-        for i in list(mask.keys()):
-            if i < 0 or i >= self._num_points:
-                del mask[i]
-
-        self._mask.update(mask)
+        # NumPy integers and booleans are accepted as input but built-in types
+        # are stored so that the dictionary returned by to_dict can always be
+        # serialized (e.g., as JSON).
+        self._mask.update(
+            {
+                int(i): bool(flag)
+                for i, flag in mask.items()
+                if 0 <= i < self._num_points
+            }
+        )
 
     def get_mask(self) -> Dict[int, bool]:
         """
